@@ -55,10 +55,19 @@ func c02Configs(scale int) []*eagrBFS {
 		b.cfg.trackVotes = true
 		return b
 	}
+	mk2 := func(name string, proposers []bool, budget eagrDevs, total int) *eagrBFS {
+		b := eagrHonest3(name, proposers, nil, 2, 1).lock(budget, total, cap)
+		b.cfg.atomicLoop = false
+		b.cfg.trackVotes = true
+		return b
+	}
 	return []*eagrBFS{
 		// crash-focused: up to 2 crash-restarts at every position, then at most 1 further deviation
 		mk("crash2-3prop", nil, eagrBudget(1, 1, 0, 2, 0, 0, 0), 2+scale),
 		mk("crash2-1prop", []bool{true, false, false}, eagrBudget(1, 1, 0, 2, 0, 0, 0), 3),
+		// two rounds: a crash in which the node's ledger loses its last block (crash DB one round ahead
+		// of the ledger); the block comes back through catch-up at any later decision point
+		mk2("crashlose-2rounds", nil, eagrBudget(0, 0, 0, 1, 0, 0, 0).with(eagrDevCrashLose, 1), 1+scale),
 	}
 }
 
